@@ -392,6 +392,11 @@ def _split_expr_over_interface(expr, interface, tests=None, trials=None):
         others = list(set(us) - set([u]))
         for other in others:
             expr = expr.subs({other: 0})
+            # the components minus(F)[i] = minus(F[i]) of a restricted vector function vanish with it
+            comps = [a for a in expr.atoms(type(other))
+                     if isinstance(a.args[0], IndexedVectorFunction) and a.args[0].base == other.args[0]]
+            for a in comps:
+                expr = expr.subs({a: 0})
         return expr
     # ...
     if is_bilinear:
